@@ -42,6 +42,9 @@ def zero_tests(b, p):
             truth = not truth
         if isinstance(v, tuple) and v[0] == "bin" and v[1] in ("Ne", "Eq") and T.is_const_int(v[3], 0):
             out.append((v[2], truth if v[1] == "Eq" else not truth))
+        elif isinstance(v, tuple) and v[0] not in ("discr", "bin", "un", "const") and str(t.get("dty", "")) not in ("bool", "isize"):
+            # `match x { 0 => .., _ => .. }` on the integer itself is the same test as `x == 0`
+            out.append((v, not truth))
     return out
 
 
@@ -137,6 +140,16 @@ def run(ctx):
                    fn=wc.path, construct="row-start", where=wc.where(p.blocks[-1]), sample={"rule": "row-prefix", "conds": conds})
         elif conds.get("col0") is False:
             ctx.ob("C07.row-prefix", not hdr and not rs, "the row header / bitmap is (re)written at a column other than 0", fn=wc.path, construct="row-start-only-at-0", nontrivial=False)
+        # while cells are offered the staged row only grows: nothing removes bytes of the cells already encoded (a roll-back of a
+        # refused value may cut the buffer back to the length it had before that value, taken on this path, and to nothing else)
+        for pos, blk, t in p.calls():
+            m_ = re.search(r"Vec::<T, A>::(truncate|clear|drain|pop|split_off|set_len|retain|swap_remove|remove|dedup)$", cname(t["func"]))
+            if not m_ or not T.is_field(T.peel(p.arg(pos, 0)), "data"):
+                continue
+            to_ = T.peel(p.arg(pos, 1), payloads=False) if m_.group(1) == "truncate" and len(t["args"]) > 1 else None
+            ok_cut = to_ is not None and T.is_call(to_, r"Vec::<T, A>::len$") and len(to_[2]) == 1 and T.is_field(T.peel(to_[2][0]), "data")
+            ctx.ob("C07.row-prefix", ok_cut, "write_col removes staged bytes of the row (%s of self.data): the cells already encoded for this row would be lost or shifted" % m_.group(1),
+                   fn=wc.path, construct="staged-row-only-grows", callee=m_.group(1), where=wc.where(blk), nontrivial=False)
         if conds.get("null") is True:
             if conds.get("notnull") is True:
                 ctx.ob("C07.not-null", cls == "err" and not bits and not enc, "NULL offered for a NOT NULL column is not refused", fn=wc.path, construct="not-null-refused", where=wc.where(p.blocks[-1]))
